@@ -25,6 +25,11 @@ func runC07(p *eng.Prog, r *eng.Report, tier string) {
 	// C07.19 (= C09.17 / C10.10): no cycle in the lock-order graph: a deadlock between a
 	// writer and Close, or between the serve loop and a requester, ends every guarantee of this property
 	lockOrder(c, "C07.19")
+	// C07.20 (= C05.2 / C10.6): the writer the automatic reply goes through releases the output lock exactly
+	// once, on Close; nothing else sets its "released" marker (a latched write error would leak the lock and
+	// the next unanswered request would never get its reply)
+	lockPairing(c, "C07.20", []string{"xmpp.Session.out", "xmpp.Session.in"}, map[string]bool{"xmpp.(*Session).TokenWriter": true, "xmpp.(*Session).TokenReader": true})
+	closerTypestate(c, "C07.20")
 	// (no instance on today's tree: the routers end the stream on a malformed IQ; kept alive by the stored variant C07-r14-2)
 	c.r.Note("C07.18: %d answers written by multiplexer functions", c07RoutersAnswerRequestsOnly(c, "C07.18"))
 	c07Default(c)
